@@ -261,6 +261,13 @@ def make_ref(expr):
                 # for readability
                 lst = [expr.kind] + list(map(make_ref, expr.operands))
                 ref = "_".join(lst)
+                # Joined names are ambiguous, for instance, a_b + c and
+                # a + b_c both give add_a_b_c: the name is owned by
+                # the expression that used it first, other expressions
+                # get their intkey appended.
+                owners = expr.context.__dict__.setdefault("_joined_ref_owners", {})
+                while owners.setdefault(ref, expr) is not expr:
+                    ref = f"{ref}_{expr.intkey}"
             else:
                 ref = f"{expr.kind}_{expr.intkey}"
     elif ref is None:
